@@ -264,7 +264,10 @@ pub fn print_text<T: ReadTxn>(t: &TextRef, txn: &T, depth: usize) -> String {
     }).collect::<Vec<_>>().join("")
 }
 pub fn print_xmltext<T: ReadTxn>(t: &XmlTextRef, txn: &T, depth: usize) -> String {
-    t.diff(txn, YChange::identity).iter().map(|d| {
+    let mut at: Vec<String> = t.attributes(txn).map(|(k, v)| format!("{}={}", k, print_out(&v, txn, depth + 1))).collect();
+    at.sort();
+    let at = if at.is_empty() { String::new() } else { format!("@{} ", at.join(" ")) };
+    at + &t.diff(txn, YChange::identity).iter().map(|d| {
         let at = d.attributes.as_ref().map(|a| print_attrs(a)).unwrap_or_default();
         format!("<{}|{}>", match &d.insert { Out::Any(Any::String(s)) => format!("'{}'", s), o => print_out(o, txn, depth + 1) }, at)
     }).collect::<Vec<_>>().join("")
@@ -497,9 +500,25 @@ pub fn random_call(doc: &Doc, txn: &mut TransactionMut, r: &mut Rng, cfg: &EditC
         Out::YXmlText(t) => {
             let chunks = t.diff(txn, YChange::identity);
             let pos = text_positions(&chunks, txn, bytes);
-            let p = *r.pick(&pos); let s = rand_string(r);
-            script.push(format!("{name}.insert({p},{s:?})"));
-            t.insert(txn, p, &s);
+            let n = pos.len() - 1;
+            let choice = r.below(10);
+            if choice < 5 || n == 0 {
+                let p = *r.pick(&pos); let s = rand_string(r);
+                script.push(format!("{name}.insert({p},{s:?})"));
+                t.insert(txn, p, &s);
+            } else if choice < 7 && cfg.deletes {
+                let i = r.below(n as u64) as usize; let j = r.range(i as u64 + 1, (n as u64).min(i as u64 + 3)) as usize;
+                script.push(format!("{name}.remove_range({},{})", pos[i], pos[j] - pos[i]));
+                t.remove_range(txn, pos[i], pos[j] - pos[i]);
+            } else if choice < 8 && cfg.formatting {
+                let i = r.below(n as u64) as usize; let j = r.range(i as u64 + 1, (n as u64).min(i as u64 + 3)) as usize; let a = rand_attrs(r);
+                script.push(format!("{name}.format({},{},{})", pos[i], pos[j] - pos[i], print_attrs(&a)));
+                t.format(txn, pos[i], pos[j] - pos[i], a);
+            } else {
+                let k = *r.pick(&["id", "cls"]);
+                if r.chance(2, 3) || !cfg.deletes { let v = rand_string(r); script.push(format!("{name}.insert_attribute({k},{v:?})")); t.insert_attribute(txn, k, v); }
+                else { script.push(format!("{name}.remove_attribute({k})")); t.remove_attribute(txn, &k); }
+            }
         }
         _ => {}
     }
